@@ -76,6 +76,7 @@ class Result:
         self.skipped = {}            # reason -> count (not accepted / undecided / excluded)
         self.extra = {}              # free-form numeric counters merged by addition
         self.budget_exhausted = False
+        self.extra_state = {}        # not merged
 
     # -- recording ---------------------------------------------------------
     def case(self, n=1):
@@ -102,6 +103,14 @@ class Result:
         lst = self.nt_samples if nt else self.samples
         if len(lst) < MAX_SAMPLES // 2:
             lst.append(jsonable(case))
+
+    def maybe_sample(self, case, nt=False):
+        """Sparse deterministic sampling that never starves: keeps the 1st, 2nd, 4th, 8th, ... case offered."""
+        k = '_ms_nt' if nt else '_ms'
+        n = self.extra_state.get(k, 0) + 1
+        self.extra_state[k] = n
+        if n & (n - 1) == 0:
+            self.sample(case, nt=nt)
 
     def fail(self, bucket, case, expected=None, got=None, note=None):
         self.fail_counts[bucket] = self.fail_counts.get(bucket, 0) + 1
@@ -367,6 +376,9 @@ def main(argv=None):
         return 2
     if res.evaluations < 1 or res.distinct_nontrivial < 2:
         print('HARNESS-ERROR vacuous run (no non-trivial cases)')
+        return 2
+    if not (res.samples or res.nt_samples):
+        print('HARNESS-ERROR no sample cases were recorded (evidence would be invalid)')
         return 2
     return 0
 
